@@ -8,7 +8,7 @@ from typing import Dict, List, Optional, Tuple
 
 from ..astutil import call_name, calls_in, dotted, name_stores, returns_of, unparse, walk_local, walk_stmts
 from ..index import ClassInfo, FuncInfo
-from ..report import Registry, sub
+from ..report import Registry, chain, sub
 
 R = Registry(
     "C05",
@@ -117,6 +117,10 @@ class _Interp:
                 return worst
             if c.func.id == "Decimal":
                 return SAFE
+            if worst != SAFE:
+                lv = self._follow(c, env)
+                if lv is not None:
+                    return lv
             return SAFE if worst == SAFE else RAW
         if isinstance(c.func, ast.Attribute):
             if nm in ("decimal.Decimal", "dt.datetime", "uuid.UUID", "_python_UUID"):
@@ -142,8 +146,56 @@ class _Interp:
                 return SAFE
             if recv == SAFE and worst == SAFE:
                 return SAFE
+            if recv == SAFE:
+                lv = self._follow(c, env)
+                if lv is not None:
+                    return lv
             return RAW
         return RAW
+
+    # -- extracted helpers: a local function of the enclosing literal_processor, a module-level function or a
+    #    method of the type (`self._quote(value)`) is interpreted with its parameters bound to the levels of the
+    #    arguments; its result is the worst of what it returns.  Anything not resolvable stays RAW (as before).
+    depth = 0
+
+    def _follow(self, c: ast.Call, env) -> Optional[int]:
+        if self.depth >= 2 or any(k.arg is None for k in c.keywords) or any(isinstance(a, ast.Starred) for a in c.args):
+            return None
+        target = None
+        skip_self = False
+        if isinstance(c.func, ast.Name):
+            for n in ast.walk(self.outer.node):
+                if isinstance(n, ast.FunctionDef) and n.name == c.func.id and n is not self.fn and n is not self.outer.node:
+                    target = n
+                    break
+            if target is None:
+                r = self.ctx.index.resolve(self.outer.module, c.func.id)
+                if isinstance(r, FuncInfo) and r.cls is None:
+                    target = r.node
+        elif isinstance(c.func, ast.Attribute) and isinstance(c.func.value, ast.Name) and c.func.value.id in ("self", "cls") \
+                and self.outer.cls is not None:
+            r = self.ctx.index.resolve_method(self.outer.cls, c.func.attr)
+            if r is not None and r.node is not self.outer.node:
+                target = r.node
+                skip_self = not any("staticmethod" in d for d in r.decorators)
+        if target is None or sum(1 for x in ast.walk(target) if isinstance(x, ast.stmt)) > 15 \
+                or any(isinstance(x, (ast.Yield, ast.YieldFrom, ast.Global, ast.Nonlocal)) for x in ast.walk(target)):
+            return None
+        params = [a.arg for a in target.args.posonlyargs + target.args.args]
+        if skip_self and params:
+            params = params[1:]
+        env2 = {}
+        for p, a in zip(params, c.args):
+            env2[p] = self.ev(a, env)
+        for k in c.keywords:
+            if k.arg in params:
+                env2[k.arg] = self.ev(k.value, env)
+        sub_ = _Interp(self.ctx, self.outer, target, self.procs, self.nonnull, self.hooks)
+        sub_.depth = self.depth + 1
+        sub_._block(target.body, env2)
+        if not sub_.returns:
+            return None
+        return min(r[0] for r in sub_.returns)
 
     def _placeholders(self, pieces: List[Tuple[str, Optional[ast.AST]]], env) -> int:
         """pieces: (literal text, expr or None) in order; an expr inside single quotes needs >= QSAFE, outside
@@ -601,80 +653,212 @@ def r2(ctx):
     ]
     for key, what in sites:
         f = ctx.func(key)
-        ok = False
-        for n in walk_local(f.node, into_nested=True):
-            if isinstance(n, ast.If) and "_double_percents" in unparse(n.test):
-                for cc in calls_in(n, into_nested=True):
-                    if (call_name(cc) or "").endswith(".replace") and len(cc.args) == 2 and \
-                            isinstance(cc.args[0], ast.Constant) and cc.args[0].value == "%" and \
-                            isinstance(cc.args[1], ast.Constant) and cc.args[1].value == "%%":
-                        ok = True
+        ok = _percent_doubled_under_flag(ctx, f)
         ctx.check(ok, key + ":double-percents", f"{what}: `%` is not doubled under _double_percents (pyformat/format "
                                                 f"drivers would treat it as a placeholder)", "doubles % under the flag", f.loc)
 
 
+def _percent_doubled_under_flag(ctx, f: FuncInfo) -> bool:
+    """Is there a `.replace("%", "%%")` in `f` (or in a closure defined in it) that runs exactly under a positive
+    outcome of the `_double_percents` flag?  The condition is read from the enclosing if / ternary / `and` structure
+    AND from the dominating branch outcomes of the CFG (early returns, inverted tests), after substituting
+    single-assignment aliases of the flag."""
+    from ..astutil import enclosing_stmt, guard_atoms, lexical_guards
+    from . import _helpers_rob_c3 as RC
+    pm = f.module.parents()
+    subst = RC.pure_alias_bindings(f.node)
+    scopes = [f.node] + [n for n in ast.walk(f.node) if isinstance(n, (ast.FunctionDef, ast.Lambda)) and n is not f.node]
+    for scope in scopes:
+        if not isinstance(scope, ast.Lambda):
+            subst = dict(subst, **RC.pure_alias_bindings(scope))
+    for cc in calls_in(f.node, into_nested=True):
+        if not ((call_name(cc) or "").endswith(".replace") and len(cc.args) == 2
+                and isinstance(cc.args[0], ast.Constant) and cc.args[0].value == "%"
+                and isinstance(cc.args[1], ast.Constant) and cc.args[1].value == "%%"):
+            continue
+        # innermost function scope of the call
+        scope = f.node
+        cur = cc
+        while cur is not None and cur is not f.node:
+            cur = pm.get(cur)
+            if isinstance(cur, (ast.FunctionDef, ast.AsyncFunctionDef)):
+                scope = cur
+                break
+        guards = [(RC.substitute(t, subst), pol) for t, pol in lexical_guards(pm, cc, stop=scope)]
+        st = enclosing_stmt(pm, cc)
+        if st is not None:
+            g = ctx.cfg(scope)
+            for nid in g.nodes_for(st)[:1]:
+                guards += [(RC.substitute(t, subst), pol) for t, pol in g.edge_guards(nid)]
+        if any(a.endswith("_double_percents") and pol for a, pol in guard_atoms(guards)):
+            return True
+    return False
+
+
+def _is_compile_error(ctx, f: FuncInfo, e: ast.expr, depth=0) -> bool:
+    """Is the raised expression a CompileError -- constructed in place, or by a helper (method of the compiler /
+    module-level function) all of whose returns construct one?"""
+    if isinstance(e, ast.Call):
+        nm = call_name(e) or ""
+        if nm.rsplit(".", 1)[-1] == "CompileError":
+            return True
+        tgt = None
+        if isinstance(e.func, ast.Attribute) and isinstance(e.func.value, ast.Name) and e.func.value.id in ("self", "cls") \
+                and f.cls is not None:
+            tgt = ctx.index.resolve_method(f.cls, e.func.attr)
+        elif isinstance(e.func, ast.Name):
+            r = ctx.index.resolve(f.module, e.func.id)
+            tgt = r if isinstance(r, FuncInfo) else None
+        if tgt is not None and depth < 2:
+            rets = [r.value for r in returns_of(tgt.node)]
+            return bool(rets) and all(v is not None and _is_compile_error(ctx, tgt, v, depth + 1) for v in rets)
+    return False
+
+
+def _processor_names(fn: ast.AST) -> set:
+    """Locals of `fn` that hold the type's literal processor: bound from a call of one of PROC_SOURCES, or an
+    alias of such a local."""
+    names: set = set()
+    stores = sorted(name_stores(fn, into_nested=False), key=lambda x: (x[2].lineno, x[2].col_offset))
+    for n, v, st in stores + stores:
+        if isinstance(v, ast.Call) and (call_name(v) or "").rsplit(".", 1)[-1] in PROC_SOURCES:
+            names.add(n)
+        elif isinstance(v, ast.Name) and v.id in names:
+            names.add(n)
+        elif isinstance(v, ast.NamedExpr):
+            pass
+    for n in ast.walk(fn):
+        if isinstance(n, ast.NamedExpr) and isinstance(n.target, ast.Name) and isinstance(n.value, ast.Call) \
+                and (call_name(n.value) or "").rsplit(".", 1)[-1] in PROC_SOURCES:
+            names.add(n.target.id)
+    return names
+
+
 @R.rule("C05-R3", floor=3, template="T-PATH",
-        desc="render_literal_value: NULL keyword for None before any processor; CompileError when no processor")
+        desc="render_literal_value: NULL keyword for None before any processor; the processor is applied only where it "
+             "is known to exist; without a processor every path raises CompileError; nothing else is rendered")
 def r3(ctx):
+    from ..astutil import own_exprs
+    from . import _helpers_rob_c3 as RC
     f = ctx.func("sql/compiler.py::SQLCompiler.render_literal_value")
     g = ctx.cfg(f)
-    proc_calls = [n.id for n in g.nodes if n.stmt is not None and isinstance(n.stmt, ast.Return) and isinstance(n.stmt.value, ast.Call)
-                  and isinstance(n.stmt.value.func, ast.Name) and n.stmt.value.func.id == "processor"]
-    ctx.require(proc_calls, "render_literal_value no longer returns processor(value)")
-    # (a) processor(value) must not be reachable for `value is None` unless the type evaluates None itself:
-    #     follow only branch outcomes that are satisfiable together with  value is None  and
-    #     not <type>.should_evaluate_none  (the other leaf propositions are free).
-    pcall = g.nodes[proc_calls[0]].stmt.value
+    pnames = _processor_names(f.node)
+    ctx.require(pnames, "render_literal_value no longer obtains a literal processor from the type")
+
+    def proc_calls_in(node):
+        return [c for c in calls_in(node) if isinstance(c.func, ast.Name) and c.func.id in pnames]
+
+    proc_nodes = [n.id for n in g.nodes if n.stmt is not None and n.kind in ("stmt", "test")
+                  and any(proc_calls_in(part) for part in own_exprs(n.stmt))]
+    ctx.require(proc_nodes, "render_literal_value no longer applies the literal processor to the value")
+    pcall = [c for part in own_exprs(g.nodes[proc_nodes[0]].stmt) for c in proc_calls_in(part)][0]
     ctx.require(pcall.args and isinstance(pcall.args[0], ast.Name), "processor(...) is not called with the value parameter")
     vname = pcall.args[0].id
     handle = _type_handle(f, vname)
     ctx.require(handle is not None, "render_literal_value: no type parameter found for the value")
-    fixed = {f"{vname} is None": True, f"{handle}.should_evaluate_none": False, f"{handle} is None": False}
-    subst = _single_bindings(f.node)
+    subst = RC.pure_alias_bindings(f.node)
+    # the truth of `P` / `P is None` for the processor local P (aliases of P share the leaf of the first name)
+    canon = sorted(pnames)[0]
 
-    def satisfiable(test, outcome):
-        leaves = _bool_leaves(test, subst)
-        free = [l for l in leaves if l not in fixed]
-        if len(free) > 12:
-            return True
-        for asg in _assignments(free):
-            asg.update({k: v for k, v in fixed.items() if k in leaves})
-            if _bool_eval(test, asg, subst) == outcome:
+    class _Canon(ast.NodeTransformer):
+        def visit_Name(self, node):
+            return ast.copy_location(ast.Name(id=canon, ctx=node.ctx), node) if node.id in pnames else node
+
+        def visit_NamedExpr(self, node):
+            if isinstance(node.target, ast.Name) and node.target.id in pnames:
+                return ast.copy_location(ast.Name(id=canon, ctx=ast.Load()), node)
+            return self.generic_visit(node)
+
+    def norm(test):
+        import copy
+        return ast.fix_missing_locations(_Canon().visit(copy.deepcopy(RC.substitute(test, subst))))
+
+    def satisfiable_with(fixed):
+        def satisfiable(test, outcome):
+            test = norm(test)
+            leaves = _bool_leaves(test)
+            free = [l for l in leaves if l not in fixed]
+            if len(free) > 12:
                 return True
-        return False
+            for asg in _assignments(free):
+                asg.update({k: v for k, v in fixed.items() if k in leaves})
+                if _bool_eval(test, asg) == outcome:
+                    return True
+            return False
 
-    def edge_ok(a, b, lab):
-        n = g.nodes[a]
-        if n.kind == "test" and lab in ("true", "false"):
-            return satisfiable(n.stmt.test, lab == "true")
-        return lab != "exc"
+        def edge_ok(a, b, lab):
+            n = g.nodes[a]
+            if n.kind == "test" and lab in ("true", "false"):
+                return satisfiable(n.stmt.test, lab == "true")
+            return lab != "exc"
+        return edge_ok
 
-    w = g.witness([g.entry], proc_calls, edge_ok=edge_ok)
-    none_guard = w is None
-    guards = [(unparse(t), pol) for t, pol in g.edge_guards(proc_calls[0])]
-    proc_guard = any(t.strip() == "processor" and pol for t, pol in guards)
-    ctx.check(none_guard, f.key + ":none-first", "processor(value) is reachable for value None although the type does not "
-                                                  "evaluate None (NULL must be rendered by the compiler)",
+    # (a) processor(value) must not be reachable for `value is None` unless the type evaluates None itself:
+    #     follow only branch outcomes that are satisfiable together with  value is None  and
+    #     not <type>.should_evaluate_none  (the other leaf propositions are free).
+    none_world = satisfiable_with({f"{vname} is None": True, vname: False, f"{handle}.should_evaluate_none": False,
+                                   f"{handle} is None": False})
+    w = g.witness([g.entry], proc_nodes, edge_ok=none_world)
+    ctx.check(w is None, f.key + ":none-first", "processor(value) is reachable for value None although the type does not "
+                                                 "evaluate None (NULL must be rendered by the compiler)",
               "None handled before the processor (unless the type evaluates None)", f.loc,
               None if w is None else g.describe_path(w))
-    ctx.check(proc_guard, f.key + ":processor-guard", "processor(value) not guarded by `if processor`", "guarded", f.loc)
-    # (b) every other return is the Null rendering; no str(value) fallback; missing processor raises CompileError
-    bad = []
-    for r in returns_of(f.node):
-        txt = unparse(r.value) if r.value is not None else "None"
-        if "processor(" in txt or "Null" in txt:
-            continue
-        bad.append(txt)
-    raises = [unparse(n.exc)[:40] for n in walk_local(f.node) if isinstance(n, ast.Raise) and n.exc is not None]
-    ctx.check(not bad and any("CompileError" in r for r in raises), f.key + ":no-fallback",
-              f"render_literal_value has a fall-through rendering {bad} or no CompileError for a missing processor",
+    # (b) the processor is applied only where the dominating branch outcomes imply that it exists
+    #     (`if processor:` / `if not processor: raise` / `if processor is None: raise` / nested / early return)
+    unguarded = []
+    for nid in proc_nodes:
+        guards = [(norm(t), pol) for t, pol in g.edge_guards(nid)]
+        if not _outcome_implies(guards, None, lambda asg: asg.get(canon) is True or asg.get(f"{canon} is None") is False):
+            unguarded.append(nid)
+    ctx.check(not unguarded, f.key + ":processor-guard",
+              "processor(value) is applied on a path on which the type may have no literal processor (None is called)",
+              "applied only where the processor exists", f.loc)
+    # (c) only processor(value) / the NULL rendering are returned (directly or through a local that holds nothing
+    #     else); where no processor exists, every path ends in `raise CompileError`
+    def rendered_ok(e, depth=0):
+        if e is None:
+            return False
+        if isinstance(e, ast.Call) and isinstance(e.func, ast.Name) and e.func.id in pnames:
+            return True
+        if _is_null_rendering(ctx, f.module, e, f.cls):
+            return True
+        if isinstance(e, ast.Name) and depth < 3:
+            vals = [v for n, v, st in name_stores(f.node, into_nested=False) if n == e.id]
+            return bool(vals) and all(rendered_ok(v, depth + 1) for v in vals)
+        if isinstance(e, ast.IfExp):
+            return rendered_ok(e.body, depth) and rendered_ok(e.orelse, depth)
+        return False
+
+    bad = [unparse(r.value)[:60] if r.value is not None else "None" for r in returns_of(f.node) if not rendered_ok(r.value)]
+    pstores = [nid for n, v, st in name_stores(f.node, into_nested=False) if n in pnames and isinstance(st, ast.stmt)
+               for nid in g.nodes_for(st)] + \
+        [n.id for n in g.nodes if n.stmt is not None and n.kind in ("stmt", "test") and any(
+            isinstance(x, ast.NamedExpr) and isinstance(x.target, ast.Name) and x.target.id in pnames
+            for part in own_exprs(n.stmt) for x in ast.walk(part))]
+    ctx.require(pstores, "render_literal_value: the statement that obtains the processor was not located in the CFG")
+    no_proc_world = satisfiable_with({canon: False, f"{canon} is None": True})
+    reach = g.reachable(pstores, edge_ok=no_proc_world)
+    falls_out = g.exit in reach
+    raises = [g.nodes[i].stmt for i in reach if isinstance(g.nodes[i].stmt, ast.Raise) and g.nodes[i].stmt.exc is not None]
+    compile_error = any(_is_compile_error(ctx, f, r.exc) for r in raises)
+    ctx.check(not bad and not falls_out and compile_error, f.key + ":no-fallback",
+              f"render_literal_value has a fall-through rendering {bad} / returns without a processor, or raises no "
+              f"CompileError for a missing processor",
               "only processor(value) / NULL are rendered; CompileError otherwise", f.loc)
 
 
 # ---------------------------------------------------------------------- None -> SQL NULL short-circuits
-def _is_null_rendering(ctx, mod, e: Optional[ast.expr]) -> bool:
-    """Does the returned expression stand for the SQL NULL keyword / Null() element?"""
+def _is_null_rendering(ctx, mod, e: Optional[ast.expr], cls=None, depth=0) -> bool:
+    """Does the returned expression stand for the SQL NULL keyword / Null() element?  (A parameterless helper
+    method of the same class all of whose returns are the NULL rendering counts as one.)"""
     if e is None:
+        return False
+    if isinstance(e, ast.Call) and isinstance(e.func, ast.Attribute) and isinstance(e.func.value, ast.Name) \
+            and e.func.value.id in ("self", "cls") and cls is not None and depth < 2 and e.func.attr != "process":
+        tgt = ctx.index.resolve_method(cls, e.func.attr)
+        if tgt is not None:
+            rets = [r.value for r in returns_of(tgt.node)]
+            return bool(rets) and all(_is_null_rendering(ctx, tgt.module, v, tgt.cls, depth + 1) for v in rets)
         return False
     if isinstance(e, ast.Constant):
         return e.value == "NULL"
@@ -689,7 +873,7 @@ def _is_null_rendering(ctx, mod, e: Optional[ast.expr]) -> bool:
             if isinstance(r, FuncInfo) and r.key == "sql/_elements_constructors.py::null":
                 return True
         if nm.rsplit(".", 1)[-1] == "process" and e.args:
-            return _is_null_rendering(ctx, mod, e.args[0])
+            return _is_null_rendering(ctx, mod, e.args[0], cls, depth)
         return False
     if isinstance(e, (ast.Name, ast.Attribute)):
         d = dotted(e) or ""
@@ -727,6 +911,7 @@ def _type_handle(f: FuncInfo, v_text: str) -> Optional[str]:
              "the type does not evaluate None itself (`not <type>.should_evaluate_none`), as the bound path does")
 def r4(ctx):
     from ..astutil import test_atoms
+    from . import _helpers_rob_c3 as RC
     mods = [m for m in ctx.index.all_modules() if m.relpath.startswith(("sql/", "dialects/", "engine/", "orm/"))]
     ctx.require(len(mods) >= 100, f"only {len(mods)} modules in scope")
     n_sites = 0
@@ -734,11 +919,12 @@ def r4(ctx):
         for f in sorted(ctx.index.all_functions(m), key=lambda x: x.key):
             if f.type_only or f.is_overload:
                 continue
-            rets = [r for r in returns_of(f.node) if _is_null_rendering(ctx, m, r.value)]
+            rets = [r for r in returns_of(f.node) if _is_null_rendering(ctx, m, r.value, f.cls)]
             if not rets:
                 continue
             g = ctx.cfg(f)
             subst = _single_bindings(f.node)
+            aliases = RC.pure_alias_bindings(f.node)
             for k, r in enumerate(rets):
                 nodes = g.nodes_for(r)
                 if not nodes:
@@ -747,7 +933,7 @@ def r4(ctx):
                 # value(s) whose None-ness is implied by the guards
                 vs = []
                 for t, pol in guards:
-                    for atom, ap in test_atoms(t, pol):
+                    for atom, ap in test_atoms(RC.substitute(t, aliases), pol):
                         if ap and atom.endswith(" is None"):
                             vs.append(atom[: -len(" is None")])
                 handle = None
@@ -831,3 +1017,147 @@ R.mutant("render-literal-value-inverted-evaluates-none", "sql/compiler.py", sub(
 R.mutant("benign-render-literal-value-alias-nested", "sql/compiler.py", sub(
     _RLV_OLD + "            # issue #10535 - handle NULL in the compiler without placing\n            # this onto each type, except for \"evaluate None\" types\n            # (e.g. JSON)\n            return self.process(elements.Null._instance())\n",
     "        type_handles_none = type_.should_evaluate_none\n        if value is None:\n            if not type_handles_none:\n                return self.process(elements.Null._instance())\n"), None)
+
+# ---------------------------------------------------------------------- rob-C3: robustness battery
+# Behaviour-preserving refactoring families that must stay silent, and neighbours that must fire.
+_RLV_TAIL_OLD = (
+    "        processor = type_._cached_literal_processor(self.dialect)\n"
+    "        if processor:\n"
+    "            try:\n"
+    "                return processor(value)\n"
+    "            except Exception as e:\n"
+    "                raise exc.CompileError(\n"
+    "                    f\"Could not render literal value \"\n"
+    "                    f'\"{sql_util._repr_single_value(value)}\" '\n"
+    "                    f\"with datatype \"\n"
+    "                    f\"{type_}; see parent stack trace for \"\n"
+    "                    \"more detail.\"\n"
+    "                ) from e\n"
+    "\n"
+    "        else:\n"
+    "            raise exc.CompileError(\n"
+    "                f\"No literal value renderer is available for literal value \"\n"
+    "                f'\"{sql_util._repr_single_value(value)}\" '\n"
+    "                f\"with datatype {type_}\"\n"
+    "            )\n"
+)
+_RLV_NO_RENDERER = (
+    "exc.CompileError(\n"
+    "                f\"No literal value renderer is available for literal value \"\n"
+    "                f'\"{sql_util._repr_single_value(value)}\" '\n"
+    "                f\"with datatype {type_}\"\n"
+    "            )\n"
+)
+_RLV_TRY = (
+    "        try:\n"
+    "            %s\n"
+    "        except Exception as e:\n"
+    "            raise exc.CompileError(\n"
+    "                f\"Could not render literal value \"\n"
+    "                f'\"{sql_util._repr_single_value(value)}\" '\n"
+    "                f\"with datatype {type_}; see parent stack trace for more detail.\"\n"
+    "            ) from e\n"
+)
+# family: inverted if/else + early raise (stored refactor rfC_14)
+R.mutant("benign-rlv-guard-raise-then-try", "sql/compiler.py", sub(
+    _RLV_TAIL_OLD,
+    "        processor = type_._cached_literal_processor(self.dialect)\n"
+    "        if not processor:\n            raise " + _RLV_NO_RENDERER + "\n" + _RLV_TRY % "return processor(value)"), None)
+# family: `is None` test, renamed local, result through a local returned after the try
+R.mutant("benign-rlv-is-none-raise-result-local", "sql/compiler.py", sub(
+    _RLV_TAIL_OLD,
+    "        literal_proc = type_._cached_literal_processor(self.dialect)\n"
+    "        if literal_proc is None:\n            raise " + _RLV_NO_RENDERER + "\n" + _RLV_TRY % "rendered = literal_proc(value)"
+    + "        return rendered\n"), None)
+# family: alias of the processor + boolean local used as the guard
+R.mutant("benign-rlv-alias-and-boolean-local", "sql/compiler.py", sub(
+    _RLV_TAIL_OLD,
+    "        processor = type_._cached_literal_processor(self.dialect)\n"
+    "        proc = processor\n"
+    "        has_renderer = proc is not None\n"
+    "        if has_renderer:\n"
+    "            try:\n"
+    "                return proc(value)\n"
+    "            except Exception as e:\n"
+    "                raise exc.CompileError(\n"
+    "                    f\"Could not render literal value with datatype {type_}\"\n"
+    "                ) from e\n"
+    "        raise " + _RLV_NO_RENDERER), None)
+# family: walrus
+R.mutant("benign-rlv-walrus", "sql/compiler.py", sub(
+    _RLV_TAIL_OLD,
+    "        if (processor := type_._cached_literal_processor(self.dialect)) is None:\n            raise " + _RLV_NO_RENDERER + "\n"
+    + _RLV_TRY % "return processor(value)"), None)
+# family: extracted helper that builds the error
+R.mutant("benign-rlv-error-built-by-helper", "sql/compiler.py", chain(
+    sub(_RLV_TAIL_OLD,
+        "        processor = type_._cached_literal_processor(self.dialect)\n"
+        "        if not processor:\n            raise self._no_literal_renderer(value, type_)\n\n" + _RLV_TRY % "return processor(value)"),
+    sub("    def _truncate_bindparam(self, bindparam):\n",
+        "    def _no_literal_renderer(self, value, type_):\n        return " + _RLV_NO_RENDERER.replace("\n    ", "\n") + "\n"
+        "    def _truncate_bindparam(self, bindparam):\n")), None)
+# breaking neighbours
+R.mutant("rlv-processor-applied-without-guard", "sql/compiler.py",
+         sub("        if processor:\n            try:\n                return processor(value)\n",
+             "        if processor or value is not None:\n            try:\n                return processor(value)\n"), "C05-R3")
+R.mutant("rlv-guard-on-the-wrong-polarity", "sql/compiler.py", sub(
+    _RLV_TAIL_OLD,
+    "        processor = type_._cached_literal_processor(self.dialect)\n"
+    "        if processor:\n            raise " + _RLV_NO_RENDERER + "\n" + _RLV_TRY % "return processor(value)"), "C05-R3")
+R.mutant("rlv-missing-processor-renders-null", "sql/compiler.py",
+         sub("        else:\n            raise exc.CompileError(\n                f\"No literal value renderer is available for literal value \"\n"
+             "                f'\"{sql_util._repr_single_value(value)}\" '\n                f\"with datatype {type_}\"\n            )\n",
+             "        else:\n            return self.process(elements.Null._instance())\n"), "C05-R3")
+R.mutant("rlv-missing-processor-falls-off", "sql/compiler.py",
+         sub("        else:\n            raise exc.CompileError(\n                f\"No literal value renderer is available for literal value \"\n"
+             "                f'\"{sql_util._repr_single_value(value)}\" '\n                f\"with datatype {type_}\"\n            )\n",
+             "        else:\n            util.warn(\"No literal value renderer is available\")\n"), "C05-R3")
+
+# -- R2 percent doubling: the flag may be aliased, tested negatively with an early return, or used in a ternary
+_ELC_OLD = "    def escape_literal_column(self, text):\n        if self.preparer._double_percents:\n            text = text.replace(\"%\", \"%%\")\n        return text\n"
+R.mutant("benign-percent-early-return", "sql/compiler.py", sub(
+    _ELC_OLD, "    def escape_literal_column(self, text):\n        if not self.preparer._double_percents:\n            return text\n        return text.replace(\"%\", \"%%\")\n"), None)
+R.mutant("benign-percent-ternary-alias", "sql/compiler.py", sub(
+    _ELC_OLD, "    def escape_literal_column(self, text):\n        double = self.preparer._double_percents\n        return text.replace(\"%\", \"%%\") if double else text\n"), None)
+R.mutant("percent-doubling-when-flag-off", "sql/compiler.py", sub(
+    _ELC_OLD, "    def escape_literal_column(self, text):\n        if not self.preparer._double_percents:\n            text = text.replace(\"%\", \"%%\")\n        return text\n"), "C05-R2")
+R.mutant("percent-doubling-early-return-inverted", "sql/compiler.py", sub(
+    _ELC_OLD, "    def escape_literal_column(self, text):\n        if self.preparer._double_percents:\n            return text\n        return text.replace(\"%\", \"%%\")\n"), "C05-R2")
+
+# -- R1: extracted helpers (local function, module-level function, method of the type) and early returns
+_STR_OLD = ("    def literal_processor(self, dialect):\n        def process(value):\n            value = value.replace(\"'\", \"''\")\n\n"
+            "            if dialect.identifier_preparer._double_percents:\n                value = value.replace(\"%\", \"%%\")\n\n"
+            "            return \"'%s'\" % value\n\n        return process\n")
+R.mutant("benign-string-quote-doubling-in-local-helper", T, sub(
+    _STR_OLD,
+    "    def literal_processor(self, dialect):\n        def _double_quotes(text):\n            return text.replace(\"'\", \"''\")\n\n"
+    "        def process(value):\n            escaped = _double_quotes(value)\n            if not dialect.identifier_preparer._double_percents:\n"
+    "                return \"'%s'\" % escaped\n            return \"'%s'\" % escaped.replace(\"%\", \"%%\")\n\n        return process\n"), None)
+R.mutant("benign-string-quote-doubling-in-method", T, sub(
+    _STR_OLD,
+    "    @staticmethod\n    def _sql_quote(text):\n        doubled = text.replace(\"'\", \"''\")\n        return f\"'{doubled}'\"\n\n"
+    "    def literal_processor(self, dialect):\n        double_percents = dialect.identifier_preparer._double_percents\n\n"
+    "        def process(value):\n            if double_percents:\n                value = value.replace(\"%\", \"%%\")\n"
+    "            return self._sql_quote(value)\n\n        return process\n"), None)
+R.mutant("string-helper-without-quote-doubling", T, sub(
+    _STR_OLD,
+    "    @staticmethod\n    def _sql_quote(text):\n        return f\"'{text}'\"\n\n"
+    "    def literal_processor(self, dialect):\n        def process(value):\n            if dialect.identifier_preparer._double_percents:\n"
+    "                value = value.replace(\"%\", \"%%\")\n            return self._sql_quote(value)\n\n        return process\n"), "C05-R1")
+R.mutant("string-local-helper-strips-instead-of-doubling", T, sub(
+    _STR_OLD,
+    "    def literal_processor(self, dialect):\n        def _double_quotes(text):\n            return text.strip(\"'\")\n\n"
+    "        def process(value):\n            escaped = _double_quotes(value)\n            if dialect.identifier_preparer._double_percents:\n"
+    "                escaped = escaped.replace(\"%\", \"%%\")\n            return \"'%s'\" % escaped\n\n        return process\n"), "C05-R1")
+
+# -- R4: the NULL rendering through a helper method, the None test through a boolean local
+R.mutant("benign-rlv-null-rendered-by-helper-and-boolean-local", "sql/compiler.py", chain(
+    sub(_RLV_OLD + "            # issue #10535 - handle NULL in the compiler without placing\n            # this onto each type, except for \"evaluate None\" types\n            # (e.g. JSON)\n            return self.process(elements.Null._instance())\n",
+        "        is_null = value is None\n        if is_null and not type_.should_evaluate_none:\n            return self._render_null_keyword()\n"),
+    sub("    def _truncate_bindparam(self, bindparam):\n",
+        "    def _render_null_keyword(self):\n        return self.process(elements.Null._instance())\n\n    def _truncate_bindparam(self, bindparam):\n")), None)
+R.mutant("rlv-null-by-helper-for-evaluates-none", "sql/compiler.py", chain(
+    sub(_RLV_OLD + "            # issue #10535 - handle NULL in the compiler without placing\n            # this onto each type, except for \"evaluate None\" types\n            # (e.g. JSON)\n            return self.process(elements.Null._instance())\n",
+        "        is_null = value is None\n        if is_null:\n            return self._render_null_keyword()\n"),
+    sub("    def _truncate_bindparam(self, bindparam):\n",
+        "    def _render_null_keyword(self):\n        return self.process(elements.Null._instance())\n\n    def _truncate_bindparam(self, bindparam):\n")), "C05-R4")
